@@ -16,10 +16,13 @@ THEOREMS = ["Gozod.C11.c11_equiv_partial", "Gozod.C11.conv", "Gozod.C11.equivJ",
             "Gozod.C11.witness_format_siblings_dropped", "Gozod.C11.witness_tuple_items_all_required",
             "Gozod.C11.witness_optional_property_accepts_null", "Gozod.C11.witness_required_on_record_path",
             "Gozod.C11.witness_roundtrip_open_object", "Gozod.C11.witness_strict_unreached", "Gozod.C11.c11_full_false",
-            "Gozod.C11.c11_enum_partial", "Gozod.C11.c11_enum_scalar_instance", "Gozod.C11.c11_enum_members_accepted", "Gozod.C11.c11_const_partial",
+            "Gozod.C11.c11_enum_partial", "Gozod.C11.c11_enum_scalar_instance", "Gozod.C11.c11_enum_members_accepted", "Gozod.C11.c11_const",
+            "Gozod.C11.c11_enum_null_rejected", "Gozod.C11.c11_members_no_panic", "Gozod.C11.parse_fromEnumJ", "Gozod.C11.parse_literalSchemaJ",
+            "Gozod.C11.parse_toS_enum", "Gozod.C11.parse_toS_const",
             "Gozod.C11.fromEnumJ_prims", "Gozod.C11.fromConstJ_prim", "Gozod.C11.enumValidJ_prims", "Gozod.C11.constValidJ_prim",
-            "Gozod.C11.jsonEq_ofPrim", "Gozod.C11.jsonEq_str_left", "Gozod.C11.jsonEq_str_right", "Gozod.C11.scalars_no_panic",
-            "Gozod.C11.witness_composite_member", "Gozod.C11.witness_composite_const", "Gozod.C11.c11_members_full_false"]
+            "Gozod.C11.jsonEq_ofPrim", "Gozod.C11.jsonEq_str_left", "Gozod.C11.jsonEq_str_right",
+            "Gozod.C11.deepEqual_eq", "Gozod.C11.literalEqual_eq", "Gozod.C11.ifaceEq_panics", "Gozod.C11.jsonEq_symm", "Gozod.C11.jsonEq_refl",
+            "Gozod.C11.legacy_composite_member_panics", "Gozod.C11.witness_null_member", "Gozod.C11.c11_members_full_false"]
 GEN = os.path.join(C.LEAN, "Gozod", "Gen", "KeywordTable.lean")
 
 def extract_table(res):
